@@ -11,7 +11,7 @@ import time
 LOCK = '/tmp/ferrous-seedrun.lock'      # other checks (e.g. a thorough run in a snapshot of /verif) wait with their build
 open(LOCK, 'w').write(name)
 try:
-    while subprocess.run("pgrep -f 'cargo build --offline --quiet' >/dev/null", shell=True).returncode == 0:
+    while subprocess.run("pgrep -f 'cargo buil[d] --offline --quiet' >/dev/null", shell=True).returncode == 0:
         time.sleep(1.0)                 # somebody is building from /repo right now
     rc = subprocess.run('git -C /repo apply ' + patch, shell=True).returncode
     assert rc == 0, 'patch does not apply'
